@@ -335,6 +335,31 @@ func (ts *TermStore) Bin(op Op, x, y *Term) *Term {
 			x, y = y, x
 		}
 	}
+	// strength reduction for power-of-two constants (exact in two's complement; keeps the
+	// solver away from divider/multiplier circuits)
+	if y.IsConst() && w <= 64 && y.k != 0 && y.k&(y.k-1) == 0 && y.k != 1 {
+		k := uint64(bits.TrailingZeros64(y.k))
+		kc := ts.Const(w, k)
+		switch op {
+		case OpMul:
+			return ts.Bin(OpShl, x, kc)
+		case OpUDiv:
+			return ts.Bin(OpLShr, x, kc)
+		case OpURem:
+			return ts.Bin(OpAnd, x, ts.Const(w, y.k-1))
+		case OpSDiv:
+			if sext64(y.k, w) > 0 {
+				neg := ts.Cmp(OpSlt, x, ts.Const(w, 0))
+				adj := ts.Ite(neg, ts.Const(w, y.k-1), ts.Const(w, 0))
+				return ts.Bin(OpAShr, ts.Bin(OpAdd, x, adj), kc)
+			}
+		case OpSRem:
+			if sext64(y.k, w) > 0 {
+				q := ts.Bin(OpSDiv, x, y)
+				return ts.Bin(OpSub, x, ts.Bin(OpShl, q, kc))
+			}
+		}
+	}
 	if y.IsConst() {
 		zero := (w <= 64 && y.k == 0) || (w > 64 && y.big.Sign() == 0)
 		ones := (w <= 64 && y.k == mask64(w)) || (w > 64 && y.big.Cmp(bigMask(w)) == 0)
